@@ -88,7 +88,7 @@ func (a *engaAdversary) inject(b *engaIdentity, dsts []int, tag protocol.Tag, da
 	s.observeWire(tag, data)
 	for _, d := range dsts {
 		s.seq++
-		s.pool = append(s.pool, &engaMsg{id: s.seq, src: -1 - b.idx, dst: d, tag: tag, data: data})
+		s.pool = append(s.pool, &engaMsg{id: s.seq, src: -1 - b.idx, dst: d, tag: tag, data: data, cls: engaClassify(tag, data)})
 	}
 }
 
